@@ -112,11 +112,11 @@ theorem C06_tie_compaction_callsites :
 /-- fingerprints of the small pinned functions the model transcribes literally (containers, Validate, HasQuorum,
     round-robin leader, the two compaction policies, CanProcessMessages with its cut-off comparison) -/
 theorem C06_tie_sources :
-    Gen.src_qbft_CanProcessMessages = "ef0275cbce529d81" ∧ Gen.src_qbft_RoundRobinProposer = "97146df341242e9d" ∧
-    Gen.src_qbft_compactContainerEdit = "8da3a5863dc2dc06" ∧ Gen.src_qbft_compactContainerCopy = "22271d4debca8b06" ∧
-    Gen.src_qbft_LongestUniqueSigners = "27eef36bfbdbbd06" ∧ Gen.src_qbft_AddFirstMsg = "9bf2e80fbd1d11d4" ∧
-    Gen.src_qbft_SignedMessageValidate = "617a0fc1d8b6d278" ∧ Gen.src_qbft_MessageValidate = "2cf46fcf3e43f0b4" ∧
-    Gen.src_qbft_HasQuorum = "d5a320eb505d08ff" := by decide
+    Gen.src_qbft_CanProcessMessages = "7232faa48f591b33" ∧ Gen.src_qbft_RoundRobinProposer = "a01bb36809ae1f4a" ∧
+    Gen.src_qbft_compactContainerEdit = "0de56ace8d511aea" ∧ Gen.src_qbft_compactContainerCopy = "dcfc8eafc9ead597" ∧
+    Gen.src_qbft_LongestUniqueSigners = "f42a37f13008f105" ∧ Gen.src_qbft_AddFirstMsg = "c8cbb4f27824af62" ∧
+    Gen.src_qbft_SignedMessageValidate = "7ce2f626fc6e70d1" ∧ Gen.src_qbft_MessageValidate = "a786761f356b5525" ∧
+    Gen.src_qbft_HasQuorum = "0a106974b08d9992" := by decide
 
 /-- the model's leader arithmetic is the kernel translated from ssv-spec `RoundRobinProposer` on every run, for all
     heights and rounds whose signed 64-bit sum does not overflow (the model additionally wraps like Go where it does) -/
